@@ -3,7 +3,7 @@ CONSTANTS
   N = 3
   Watch = FALSE
   MaxChanges = 0
-  Failures = FALSE
+  Failures = TRUE
   Slow = FALSE
   Signals = FALSE
   Skips = FALSE
@@ -12,7 +12,6 @@ CONSTANTS
   CapInbox = 0
   AckLate = TRUE
   RecordBefore = TRUE
-  StrictStart = FALSE
 INVARIANTS
   TypeOK NoStepViolation OnceOnly ExitComplete ExitStatusRight KeepAlive ServiceUpForDependents SingleInstance CleanExit
 CHECK_DEADLOCK TRUE
